@@ -71,6 +71,21 @@ func (fx *FuncVC) cellLookup(fr *frame, li *loopInfo, st *State) func(string) (V
 			}
 		}
 		if len(cands) == 0 {
+			// a closure: variables captured from the enclosing function (free variables are pointers
+			// to the enclosing function's cells) and the closure's own parameters
+			for i, fv := range fr.fn.FreeVars {
+				if fv.Name() == base && i < len(fr.bind) {
+					if p, ok := fr.bind[i].(PtrV); ok {
+						return fx.loadPtr(st, p), true
+					}
+					return fr.bind[i], true
+				}
+			}
+			for i, p := range fr.fn.Params {
+				if p.Name() == base && i < len(fr.params) {
+					return fr.params[i], true
+				}
+			}
 			return nil, false
 		}
 		sort.Slice(cands, func(i, j int) bool { return cands[i].Pos() < cands[j].Pos() })
